@@ -4,6 +4,7 @@ package main
 import (
 	"fmt"
 	"os"
+	"runtime/pprof"
 
 	"verif/internal/ev"
 )
@@ -49,6 +50,14 @@ func main() {
 		os.Exit(2)
 	}
 	r := ev.New(id, tier, e.level)
+	if pf := os.Getenv("VERIF_CPUPROFILE"); pf != "" {
+		f, err := os.Create(pf)
+		if err == nil {
+			pprof.StartCPUProfile(f)
+			defer pprof.StopCPUProfile()
+		}
+	}
 	e.fn(r, replay)
+	pprof.StopCPUProfile()
 	r.Finish()
 }
